@@ -17,6 +17,11 @@ func VerifNewClient(ef EndpointFinder) *Client {
 	return &Client{Endpoints: ef, client: lfshttp.VerifNewClient()}
 }
 
+// VerifNewClientGit: as VerifNewClient, with the given Git configuration.
+func VerifNewClientGit(ef EndpointFinder, gitcfg map[string][]string) *Client {
+	return &Client{Endpoints: ef, client: lfshttp.VerifNewClientGit(gitcfg)}
+}
+
 func verifDoWithAuthStub(c *Client, remote string, access creds.Access, req *http.Request) (*http.Response, error) {
 	return VerifAPIAnswer(remote, req)
 }
